@@ -40,6 +40,13 @@ pub struct StoreConfig {
     pub gc_policy: String,
     pub sst_cache_bytes: u64,
     pub mani_rollover_ratio: u64,
+    /// bloom filter bits per key of every sst the store writes (older replay files lack the field)
+    #[serde(default = "default_bloom_bits")]
+    pub bloom_bits: u8,
+}
+
+fn default_bloom_bits() -> u8 {
+    17
 }
 
 impl StoreConfig {
@@ -65,6 +72,7 @@ impl StoreConfig {
         kv("--gc-policy", self.gc_policy.clone());
         kv("--sst-cache-bytes", self.sst_cache_bytes.to_string());
         kv("--mani-log-rollover-ratio", self.mani_rollover_ratio.to_string());
+        kv("--sst-bloom-filter-bits", self.bloom_bits.to_string());
         a
     }
 
@@ -130,8 +138,9 @@ pub fn config_strategy(profile: Profile) -> BoxedStrategy<StoreConfig> {
             .prop_map(|(mf, mb, extra, sb_extra, cf, cb)| (mf, mb, mf + extra, if sb_extra == 0 { 1u64 << 40 } else { mb + sb_extra }, cf, cb))
             .boxed(),
     };
-    (sizes, thresholds, gc_policy_strategy(), prop_oneof![1 => Just(0u64), 1 => Just(8192u64), 3 => Just(1u64 << 26)], prop_oneof![Just(1u64), Just(2), Just(8)])
-        .prop_map(|((mem, tf, minf, bs, bri, pri), (mf, mb, sf, sb, cf, cb), gc, cache, roll)| StoreConfig {
+    (sizes, thresholds, gc_policy_strategy(), prop_oneof![1 => Just(0u64), 1 => Just(8192u64), 3 => Just(1u64 << 26)], prop_oneof![Just(1u64), Just(2), Just(8)], prop_oneof![5 => Just(17u8), 1 => Just(1u8), 1 => Just(3u8), 1 => Just(40u8)])
+        .prop_map(|((mem, tf, minf, bs, bri, pri), (mf, mb, sf, sb, cf, cb), gc, cache, roll, bloom_bits)| StoreConfig {
+            bloom_bits,
             memtable_size: mem,
             target_file_size: tf,
             minimum_file_size: minf.min(tf),
@@ -1054,6 +1063,13 @@ impl<'a> Harness<'a> {
                     format!("get:{kind}"),
                     format!("after {after}: load({}) returned {} but the last completed write is {} (tree {})", gens::show(k), show_val(&got), show_val(&want), self.shape()),
                 ));
+            }
+            // LsmTree::get is load without the tombstone flag
+            if let Surface::Tree = self.surface {
+                let g = self.tree.as_ref().unwrap().get(k).map_err(|e| fail("op-error:get", format!("get({}) after {after} failed: {e:?}", gens::show(k))))?;
+                if g != got {
+                    return Err(fail("get:get-differs-from-load", format!("after {after}: get({}) returned {} but load returned {}", gens::show(k), show_val(&g), show_val(&got))));
+                }
             }
             // is_tombstone must be consistent: set only when the key's latest write is a delete
             if tomb && !want_tomb {
